@@ -81,7 +81,10 @@ class Run:
 
     # ---------------------------------------------------------- pyvc part
     def verify_functions(self, targets, opts=None, plugins=(), carves=None,
-                         lemmas=True):
+                         lemmas=True, facts=()):
+        """facts: (group, spec expression source, label) -- closed spec-level
+        statements (lemma instances over the real constants) discharged with
+        the same back ends"""
         from pyvc import driver, solve
         t0 = time.time()
         eng, ver = driver.build(self.repo, opts, plugins)
@@ -104,6 +107,8 @@ class Run:
                 self.unsupported.append((t, info['reason']))
             if info['status'] == 'ok' and info['obligations'] == 0:
                 self.broken.append('no obligations generated for ' + t)
+        for (group, src, label) in facts:
+            self.add_fact(eng, group, src, label)
         t1 = time.time()
         workdir = os.path.join(VERIF, '.work', 'run%d' % os.getpid())
         solve.discharge(ver, eng.obligations, budget=self.budget,
@@ -137,6 +142,23 @@ class Run:
                                    'the engine proves false statements' % g)
         self.canaries = {}
         return eng, ver
+
+    def add_fact(self, eng, group, src, label):
+        from pyvc.state import State, Unsupported
+        from pyvc.interp import Obligation, Frame
+        st = State()
+        eng.frames.append(Frame(None))
+        try:
+            v = eng.spec_eval(ast.parse(src, mode='eval').body, st, {})
+            goal = eng.truth(v, st)
+        except Unsupported as u:
+            self.unsupported.append((group, str(u)))
+            return
+        finally:
+            eng.frames.pop()
+        ob = Obligation('lemma:' + group.split('::')[0], group, 'internal',
+                        label + ': ' + src[:150], 0, [], goal)
+        eng.obligations.append(ob)
 
     def add_vc(self, ob, eng):
         kind = 'lemma' if (ob.fn or '').startswith('lemma:') else 'vc'
